@@ -211,6 +211,10 @@ let run (t : string list) : string =
       let b x = if x then 1 else 0 in
       Printf.sprintf "r=%d w=%d a=%d" (b (Auth.can_read c (btext uid) (btext evt)))
         (b (Auth.can_write c (btext uid) (btext evt))) (b (Auth.is_admin c (btext uid)))
+  | ["auth_active"; uid] ->
+      (match Auth.alookup (btext uid) !st.Auth.st_users with
+       | Some u -> if u.Auth.u_active then "A 1" else "A 0"
+       | None -> "A -")
   | ["auth_perms"; uid] ->
       (match Auth.alookup (btext uid) !st.Auth.st_users with
        | Some u -> "PT " ^ perm_table u.Auth.u_perms
